@@ -56,6 +56,9 @@ type c29Tx struct {
 	Payer   bool // the payer's vkey witness is included
 	SetTag  bool
 	Three   bool
+	// SlotOff: the slot the rules are called with is validity start (or 0) + SlotOff;
+	// native-script evaluation must not depend on it
+	SlotOff uint64
 }
 
 func (c *c29Tx) desc() string {
@@ -124,7 +127,13 @@ func (c *c29Tx) build() (raw []byte, st *State, pp common.ProtocolParameters, sl
 	if c.Ctx.Start != nil {
 		slot = *c.Ctx.Start
 	}
-	if c.Ctx.End != nil && *c.Ctx.End > 0 && slot >= *c.Ctx.End {
+	if c.SlotOff > 0 {
+		if slot+c.SlotOff < slot {
+			slot = math.MaxUint64
+		} else {
+			slot += c.SlotOff
+		}
+	} else if c.Ctx.End != nil && *c.Ctx.End > 0 && slot >= *c.Ctx.End {
 		slot = *c.Ctx.End - 1
 	}
 	return raw, st, pp, slot, nil
@@ -461,6 +470,9 @@ func TestC29(t *testing.T) {
 		}
 		if era == Dijkstra {
 			c.Three = rapid.Bool().Draw(rt, "three")
+		}
+		if rapid.Bool().Draw(rt, "slotOff") {
+			c.SlotOff = genSlot(rt, "slotOffset")
 		}
 		rec.Class("tx_era_" + era.String())
 		if run.checkTx(fail, c) && nontrivial {
